@@ -749,6 +749,8 @@ package gorm
 //@   loop 1 invariant without-scopes-the-handle-stays: len(old(db.Statement.scopes)) == 0 ==> db == old(db) && len(db.Statement.scopes) == 0
 //@   loop 1 invariant handle-stays-well-formed: db.clone > 0 || (db.Statement != nil && db.Statement.DB == db)
 //@   ensures same-handle-without-scopes: len(old(db.Statement.scopes)) == 0 && db.clone <= 0 ==> result == db
+//@   ensures real-run-clears-the-bound-values: !result.Statement.DB.Config.DryRun ==> result.Statement.Vars == nil [C06]
+//@   ensures real-run-clears-the-built-text: !result.Statement.DB.Config.DryRun ==> textCleared == 1 [C06]
 //@ # The callbacks of an operation record what they did in the statement they are given (the implicit transaction they
 //@ # started, settings): they must all be given one instance (clone == 0) that owns its statement. A scope may return a
 //@ # handle made with Session/WithContext (clone > 0): every InstanceSet/Set on it would write a throw-away clone, the
@@ -763,8 +765,6 @@ package gorm
 //@   in gorm.(*processor).Execute
 //@   min-sites 1
 //@   assert an-instance-that-owns-its-statement: arg0.clone <= 0 && arg0.Statement != nil && arg0.Statement.DB == arg0 [C05,C06]
-//@   ensures real-run-clears-the-bound-values: !result.Statement.DB.Config.DryRun ==> result.Statement.Vars == nil [C06]
-//@   ensures real-run-clears-the-built-text: !result.Statement.DB.Config.DryRun ==> textCleared == 1 [C06]
 //@ ghost textCleared
 //@ event call strings.(*Builder).Reset
 //@   in gorm.(*processor).Execute
